@@ -115,6 +115,23 @@ def long_value_errors(rng):
                        "(let ((f %s)) (f))", "(- %s)", "(vector-ref (vector 1) %s)", "(undefined-zz %s)"]) % v
 
 
+def effects_through_procedures(rng):
+    """user procedures that ASSIGN or DEFINE variables of the scope in which builtins and library procedures are bound, mutate
+    vectors or define macros - called THROUGH apply, map, for-each, fold-left, fold-right, vector accessors, in operator, operand
+    and tail positions (a builtin must not hold on to the interpreter's environments while it runs user code)"""
+    setup = ["(define total 0)", "(define (add! n) (set! total (+ total n)) total)", "(define (def! n) (set! car cdr) (set! total n) n)",
+             "(define v (vector 1 2 3))", "(define (poke! i) (vector-set! v 0 i) (set! v (vector i i)) i)",
+             "(define (redefine! n) (set! add! (lambda (k) (set! total (- total k)) total)) n)",
+             "(define (rec! n) (if (= n 0) total (begin (set! total (+ total 1)) (apply rec! (list (- n 1))))))"]
+    f = rng.choice(["add!", "poke!", "redefine!", "add!", "rec!"])
+    arg = rng.choice(["'(5)", "(list 1)", "'(2)"])
+    uses = ["(apply %s %s)" % (f, arg), "(map %s '(1 2 3))" % f, "(for-each %s '(4 5))" % f, "(fold-left (lambda (a x) (%s x)) 0 '(1 2))" % f,
+            "(fold-right (lambda (x a) (%s x)) 0 '(1 2))" % f, "(+ 1 (apply %s %s))" % (f, arg), "(list (apply %s %s) total)" % (f, arg),
+            "((lambda () (apply %s %s)))" % (f, arg), "(apply apply (list %s %s))" % (f, arg), "(apply map (list %s '(1 2)))" % f,
+            "(vector-ref (vector (apply %s %s)) 0)" % (f, arg), "(let ((r (apply %s %s))) (set! total (+ total r)) total)" % (f, arg)]
+    return " ".join(rng.sample(setup, len(setup))[:rng.randrange(3, 8)] + setup[:2] + [rng.choice(uses) for _ in range(rng.randrange(1, 4))] + ["total"])
+
+
 def import_soup(rng):
     libs = ["(scheme base)", "(scheme base)", "(scheme write)", "(ruschm base)", "(no such)", "(scheme)"]
     names = ["car", "cdr", "cons", "+", "list", "display", "map", "nope", "car", "x"]
@@ -177,6 +194,8 @@ def run(rep, tier, rng):
         texts.append(("ellipsis-soup", ellipsis_soup(rng)))
     for _ in range(500 if tier == "quick" else 10000):
         texts.append(("long-value-error", long_value_errors(rng)))
+    for _ in range(300 if tier == "quick" else 6000):
+        texts.append(("effects-through-procedures", effects_through_procedures(rng)))
     maxlen = 4
     for L in range(1, maxlen + 1):
         for t in itertools.product(ALPHA20, repeat=L):
